@@ -1037,6 +1037,13 @@ func (r *Raft) sendAppendEntries(id string, address string, numResponses *int) {
 		return
 	}
 
+	// Ignore the response if the request was sent in an earlier term: this node lost
+	// and regained leadership since, so the response says nothing about the
+	// follower's log now and must not advance its match index or confirm leadership.
+	if request.Term != r.currentTerm {
+		return
+	}
+
 	// If the majority of cluster acknowledges the request, this node is a legitimate leader.
 	// Try to apply pending read-only operations.
 	if numResponses != nil {
